@@ -61,8 +61,13 @@ Proof. unfold fit_value. destruct (_ || _); [exact I|]. apply no_int_bind; [appl
 (* 2. values: statement indices are in range, None is never a term                                          *)
 (* ====================================================================================================== *)
 (* a term of an expression *)
-Definition tok (n : N) (t : value) : Prop :=
-  match t with VPyNone => False | VAddr k => k < n | _ => True end.
+Fixpoint tok (n : N) (t : value) : Prop :=
+  match t with
+  | VPyNone => False
+  | VAddr k => k < n
+  | VExpr l _ r _ true => tok n l /\ tok n r          (* a term may itself be label arithmetic (repair F56) *)
+  | _ => True
+  end.
 (* the size hint of a number is even (2, 4, twice a byte count) or absent: its rendering has as many digits as
    the emission loop reads *)
 Definition hint_ok (o : option N) : Prop := match o with Some h => N.even h = true | None => True end.
@@ -79,12 +84,18 @@ Definition vok (n : N) (v : value) : Prop :=
   end.
 
 Lemma vok_tok n v : vok n v -> tok n v.
-Proof. destruct v; cbn; auto. Qed.
+Proof. destruct v; cbn; auto. destruct addr; auto. Qed.
+
+Lemma tok_mono n m : n <= m -> forall v, tok n v -> tok m v.
+Proof.
+  intros Hle. fix IH 1. intros v. destruct v; cbn; try tauto; try lia.
+  destruct addr; [|tauto]. intros [H1 H2]. split; apply IH; assumption.
+Qed.
 
 Lemma vok_mono n m v : n <= m -> vok n v -> vok m v.
 Proof.
   intros Hle. destruct v; cbn; try tauto; try lia.
-  intros [H1 H2]. split; [destruct v1 | destruct v2]; cbn in *; try tauto; lia.
+  intros [H1 H2]. split; eapply tok_mono; eauto.
 Qed.
 
 (* what the parser builds contains neither None nor a statement index *)
@@ -924,14 +935,24 @@ Section Fix.
     pose proof (stmt_addr_ok t Ht). destruct (cp_addr (s_pkg t)); try exact I; contradiction.
   Qed.
 
-  Lemma term_value_ni v : tok n v -> no_int (term_value all v).
-  Proof. intros Hv. destruct v; cbn [term_value]; try exact I. apply no_int_bind; [apply addr_of_ni; exact Hv | intros; exact I]. Qed.
+  Lemma offset_arith_ni op a b : no_int (offset_arith op a b).
+  Proof. unfold offset_arith. repeat match goal with |- no_int (if ?c then _ else _) => destruct c end; exact I. Qed.
+
+  Lemma term_value_ni : forall v, tok n v -> no_int (term_value all v).
+  Proof.
+    fix IH 1. intros v Hv. destruct v; cbn [term_value]; try exact I.
+    - apply no_int_bind; [apply addr_of_ni; exact Hv | intros; exact I].
+    - destruct addr; [|exact I]. cbn in Hv. destruct Hv as [Hl Hr].
+      apply no_int_bind; [apply IH; exact Hl|]. intros a _. apply no_int_bind; [apply IH; exact Hr|]. intros b _.
+      apply no_int_bind; [apply offset_arith_ni|]. intros z _.
+      apply no_int_bind; [apply no_int_as_te, num_of_Z_ni | intros; exact I].
+  Qed.
 
   Lemma calc_offset_ni l op r : tok n l -> tok n r -> no_int (calc_offset all l op r).
   Proof.
     intros Hl Hr. unfold calc_offset, calc_offset_z. apply no_int_bind.
     - apply no_int_bind; [apply term_value_ni; exact Hl|]. intros a _. apply no_int_bind; [apply term_value_ni; exact Hr|]. intros b _.
-      repeat match goal with |- no_int (if ?c then _ else _) => destruct c end; exact I.
+      apply offset_arith_ni.
     - intros z _. apply no_int_bind; [apply no_int_as_te, num_of_Z_ni | intros; exact I].
   Qed.
 
@@ -1201,11 +1222,18 @@ Section After.
   Lemma calc_offset_ni' l op r : tok n l -> tok n r -> no_int (calc_offset ss l op r).
   Proof.
     intros Hl Hr. unfold calc_offset, calc_offset_z.
+    assert (Ho : forall o a b, no_int (offset_arith o a b)).
+    { intros o a b. unfold offset_arith. repeat match goal with |- no_int (if ?c then _ else _) => destruct c end; exact I. }
     assert (Ht : forall v, tok n v -> no_int (term_value ss v)).
-    { intros v Hv. destruct v; cbn [term_value]; try exact I. apply no_int_bind; [apply addr_of_ni'; exact Hv | intros; exact I]. }
+    { fix IH 1. intros v Hv. destruct v; cbn [term_value]; try exact I.
+      - apply no_int_bind; [apply addr_of_ni'; exact Hv | intros; exact I].
+      - destruct addr; [|exact I]. cbn in Hv. destruct Hv as [Hvl Hvr].
+        apply no_int_bind; [apply IH; exact Hvl|]. intros a _. apply no_int_bind; [apply IH; exact Hvr|]. intros b _.
+        apply no_int_bind; [apply Ho|]. intros z _.
+        apply no_int_bind; [apply no_int_as_te, num_of_Z_ni | intros; exact I]. }
     apply no_int_bind.
     - apply no_int_bind; [now apply Ht|]. intros a _. apply no_int_bind; [now apply Ht|]. intros b _.
-      repeat match goal with |- no_int (if ?c then _ else _) => destruct c end; exact I.
+      apply Ho.
     - intros z _. apply no_int_bind; [apply no_int_as_te, num_of_Z_ni | intros; exact I].
   Qed.
 
